@@ -364,6 +364,9 @@ def _check_series(prop_ctx, lst, cfg, tower, sf):
         bad("C14", "number_of_entries_differs_from_number_of_steps", got=len(lst) if hasattr(lst, "__len__") else None, expected=n, **prop_ctx)
         return
     for i, r in enumerate(lst):
+        if not isinstance(r, dict) or any(k_ not in r for k_ in ("conc", "flx", "grid")):
+            bad("C14", "entry_missing_or_not_a_result", tower=tower.name, step=i, got=repr(r)[:80], **prop_ctx)
+            continue
         _compare_single("C14", r, cfg, tower, i, sf, dict(prop_ctx, tower=tower.name, step=i), bitwise=False)
 
 
